@@ -238,7 +238,7 @@ def classify_c01(case, model, why):
             src = "".join(chr(int(x)) for x in m.group(1).split())
             l, c = int(mi.group(1)), int(mi.group(2))
             lines = src.split("\n")
-            if l < 1 or l > len(lines) or c < 1 or c > len(lines[l - 1].encode()) + 1:
+            if l < 1 or l > len(lines) or c < 1 or c > len(lines[l - 1]) + 1:
                 return dict(kind="failing-input",
                             why=f"the macro error is positioned at {l}:{c}, beyond the source text")
         return dict(kind="no-failing-input-found",
